@@ -405,6 +405,7 @@ func (srv *Srv) clunk(req *SrvReq) {
 
 func (srv *Srv) clunkPost(req *SrvReq) {
 	if req.Rc != nil && req.Rc.Type == Rclunk && req.Fid != nil {
+		req.Fid.unbind()
 		req.Fid.DecRef()
 	}
 }
@@ -413,6 +414,7 @@ func (srv *Srv) remove(req *SrvReq) { (req.Conn.Srv.ops).(SrvReqOps).Remove(req)
 
 func (srv *Srv) removePost(req *SrvReq) {
 	if req.Rc != nil && req.Fid != nil {
+		req.Fid.unbind()
 		req.Fid.DecRef()
 	}
 }
